@@ -10,7 +10,8 @@ package main
 // Values travel in a canonical text form ("canon", space-separated tokens) that is produced and
 // read with reflect, so it follows the compiled struct types, not a hand-written field list:
 //
-//	string  s<cp>.<cp>…   (code points, decimal; invalid UTF-8: x<byte>.<byte>…)
+//	string  s<cp>.<cp>…   (code points, decimal; invalid UTF-8: x<byte>.<byte>…;
+//	        r<count>*s<unit> for a string of >= 4096 runes that is a unit of <= 64 runes repeated)
 //	int     i<n>          bool  b0 | b1
 //	struct  { Field value Field value … }        (every exported field, declaration order)
 //	slice   nil | [ value … ]
@@ -36,8 +37,39 @@ import (
 	"github.com/TimothyStiles/poly/io/polyjson"
 )
 
+// c15Period: smallest p <= 64 such that rs is its first p runes repeated (0: none)
+func c15Period(rs []rune) int {
+	n := len(rs)
+	for p := 1; p <= 64 && p < n; p++ {
+		if n%p != 0 {
+			continue
+		}
+		ok := true
+		for i := p; i < n; i++ {
+			if rs[i] != rs[i-p] {
+				ok = false
+				break
+			}
+		}
+		if ok {
+			return p
+		}
+	}
+	return 0
+}
+
 func c15StrTok(s string) string {
 	var b strings.Builder
+	if len(s) >= 4096 && utf8.ValidString(s) {
+		// long exactly-periodic strings (genome-sized test sequences) travel as r<count>*s<unit>;
+		// same rule as `cS` in lean/PolyVerif/Driver/C15.lean
+		rs := []rune(s)
+		if len(rs) >= 4096 {
+			if p := c15Period(rs); p > 0 {
+				return "r" + strconv.Itoa(len(rs)/p) + "*" + c15StrTok(string(rs[:p]))
+			}
+		}
+	}
 	if utf8.ValidString(s) {
 		b.WriteByte('s')
 		first := true
@@ -61,6 +93,21 @@ func c15StrTok(s string) string {
 }
 
 func c15ParseStrTok(t string) (string, error) {
+	if strings.HasPrefix(t, "r") {
+		i := strings.IndexByte(t, '*')
+		if i < 0 {
+			return "", fmt.Errorf("canon: bad repeat token")
+		}
+		k, err := strconv.Atoi(t[1:i])
+		if err != nil {
+			return "", err
+		}
+		unit, err := c15ParseStrTok(t[i+1:])
+		if err != nil {
+			return "", err
+		}
+		return strings.Repeat(unit, k), nil
+	}
 	if t == "" || (t[0] != 's' && t[0] != 'x') {
 		return "", fmt.Errorf("canon: string token expected, got %q", t)
 	}
@@ -145,14 +192,23 @@ func c15Print(v reflect.Value, out *[]string) error {
 		if !ok {
 			return fmt.Errorf("canon: pointer type %s", v.Type())
 		}
-		*out = append(*out, "^", c15StrTok(seq.Sequence))
+		if c15Root != nil && seq.Sequence == *c15Root {
+			*out = append(*out, "^", "=") // the pointee's text is the printed value's own sequence text
+		} else {
+			*out = append(*out, "^", c15StrTok(seq.Sequence))
+		}
 	default:
 		return fmt.Errorf("canon: kind %s", v.Kind())
 	}
 	return nil
 }
 
+// the Sequence text of the value being printed (parent pointers that lead to the same text print `^ =`)
+var c15Root *string
+
 func c15Canon(x poly.Sequence) (string, error) {
+	c15Root = &x.Sequence
+	defer func() { c15Root = nil }()
 	var out []string
 	if err := c15Print(reflect.ValueOf(x), &out); err != nil {
 		return "", err
@@ -164,6 +220,9 @@ type c15Reader struct {
 	toks []string
 	pos  int
 }
+
+// placeholder pointee for a parent pointer written `^ =` (same text as the root value's: linked to the root)
+var c15Self = &poly.Sequence{}
 
 func (r *c15Reader) next() (string, error) {
 	if r.pos >= len(r.toks) {
@@ -287,6 +346,10 @@ func (r *c15Reader) read(v reflect.Value) error {
 		if err != nil {
 			return err
 		}
+		if st == "=" {
+			v.Set(reflect.ValueOf(c15Self)) // replaced by the root value once it is built
+			return nil
+		}
 		s, err := c15ParseStrTok(st)
 		if err != nil {
 			return err
@@ -313,7 +376,7 @@ func c15Uncanon(text string) (*poly.Sequence, error) {
 		return nil, fmt.Errorf("canon: trailing tokens")
 	}
 	for i := range x.Features {
-		if p := x.Features[i].ParentSequence; p != nil && p.Sequence == x.Sequence {
+		if p := x.Features[i].ParentSequence; p == c15Self || (p != nil && p.Sequence == x.Sequence) {
 			x.Features[i].ParentSequence = x
 		}
 	}
@@ -411,9 +474,21 @@ func init() {
 		if err != nil {
 			return nil, err
 		}
-		return []string{string(jtext), crt, c15GetSeqs(x), c15GetSeqs(rt), string(ftext), crd, cfl,
-			c15Guard(func() []byte { return genbank.Build(x) }), c15Guard(func() []byte { return genbank.Build(rt) }),
-			c15Guard(func() []byte { return gff.Build(x) }), c15Guard(func() []byte { return gff.Build(rt) })}, nil
+		// a field that is byte-identical to the field it is compared with is sent as "=" (the replies of the
+		// thorough tier add up to many GB otherwise); the driver expands it
+		same := func(v, ref string) string {
+			if v == ref {
+				return "="
+			}
+			return v
+		}
+		gbx := c15Guard(func() []byte { return genbank.Build(x) })
+		gbrt := c15Guard(func() []byte { return genbank.Build(rt) })
+		gfx := c15Guard(func() []byte { return gff.Build(x) })
+		gfrt := c15Guard(func() []byte { return gff.Build(rt) })
+		gsx := c15GetSeqs(x)
+		return []string{string(jtext), crt, gsx, same(c15GetSeqs(rt), gsx), string(ftext), same(crd, crt), same(cfl, crt),
+			gbx, same(gbrt, gbx), gfx, same(gfrt, gfx)}, nil
 	})
 	runner.Register("c15dec", func(a []string) ([]string, error) {
 		c, err := c15Canon(polyjson.Parse([]byte(a[0])))
@@ -507,6 +582,13 @@ func init() {
 			}
 			return c15Text(build(piped)), nil
 		})
-		return []string{"ok", cp, direct, js, crt, via, gsp, gsrt, viaFile, viaPipe, viaWrite}, nil
+		same := func(v, ref string) string {
+			if v == ref && !strings.HasPrefix(v, "!") {
+				return "=" // byte-identical to the field it is compared with
+			}
+			return v
+		}
+		return []string{"ok", cp, direct, js, crt, same(via, direct), gsp, same(gsrt, gsp), same(viaFile, direct),
+			same(viaPipe, direct), same(viaWrite, direct)}, nil
 	})
 }
